@@ -1,4 +1,5 @@
 """C36 — a restarted coordinator recovers exactly its applied Raft state (R-KEYS durable key agreement, R-ORDER, R-LOSSY; cfg persistent)."""
+import re
 from vpr.facts import root_fn
 from vpr.prov import forward_uses
 
@@ -12,8 +13,9 @@ EXPLANATION = (
     "(b) R-ORDER in install_snapshot: the snapshot bytes must be durable before the applied position that refers to them "
     "(put of KEY_SNAPSHOT dominates the save of KEY_LAST_APPLIED); (c) R-LOSSY: the Result of every save_meta / put_cf in "
     "apply_to_state_machine and install_snapshot is propagated."
+    " Write-before-Ok: in every RaftStorage method of RocksStore that writes to the database no successful return is reachable without passing a write (no partial-comparison fast path)."
 )
-DECIDED = ["which durable keys recovery reads", "whether recovery can rebuild state after log compaction", "write order of snapshot data vs applied position", "storage errors are not dropped"]
+DECIDED = ["which durable keys recovery reads", "whether recovery can rebuild state after log compaction", "write order of snapshot data vs applied position", "storage errors are not dropped", "durable writers acknowledge only after writing"]
 NOT_DECIDED = ["RocksDB atomicity of individual writes", "openraft's use of the store"]
 
 PS = "varpulis_cluster::raft::persistent_store::"
@@ -54,7 +56,50 @@ def key_uses(ctx, F):
     return uses
 
 
+DURABLE_WRITERS = ("save_vote", "append_to_log", "delete_conflict_logs_since", "purge_logs_upto", "apply_to_state_machine", "install_snapshot")
+
+
+def run_unconditional(ctx, cfg="persistent"):
+    """a durable writer acknowledges (returns Ok) only after it has written: in every RaftStorage method of RocksStore that writes
+    to the database, no successful return is reachable without passing one of its writes (save_meta / db.put / db.write /
+    db.delete). A `skip the redundant write` fast path that compares only part of the value drops an acknowledged change (the
+    `committed` flag of a vote) that a restart then reads back stale."""
+    F = ctx.facts(cfg)
+    base = "<varpulis_cluster::raft::persistent_store::RocksStore as openraft::storage::RaftStorage<varpulis_cluster::raft::TypeConfig>>::"
+    n = 0
+    for m in DURABLE_WRITERS:
+        paths = F.find_fns("^" + re.escape(base + m) + r"::\{closure#0\}$")
+        if not paths:
+            ctx.anchor_lost("durable", "RocksStore::%s not found (cfg %s)" % (m, cfg))
+            continue
+        b = ctx.body(paths[0], cfg)
+        writes = [bb for bb, t in b.calls() if (t["inst"] or t["callee"]).endswith(("RocksStore::save_meta", "::put", "::put_cf", "::write", "::delete", "::delete_cf", "::write_opt"))
+                  and ("rocksdb" in (t["inst"] or t["callee"]) or "RocksStore" in (t["inst"] or t["callee"]))]
+        if not writes:
+            ctx.anchor_lost("durable", "RocksStore::%s performs no database write (writers expected: save_meta / put / write / delete)" % m)
+            continue
+        n += 1
+        # error exits: `?` residual conversions and explicit Err values
+        err_blocks = [bb for bb, t in b.calls() if t["callee"].endswith("::from_residual")]
+        for bb in sorted(b.live):
+            for s_ in b.stmts(bb):
+                if s_["k"] == "agg" and s_.get("agg", "").endswith("Result::Err"):
+                    err_blocks.append(bb)
+        free = b.reachable(0, avoid_blocks=writes + err_blocks)
+        # an empty input (append with no entries, nothing to delete) legitimately writes nothing: loops over the input whose
+        # body holds the write are entered zero times; only count returns reachable without entering such a loop
+        bad = [r for r in b.return_blocks() if r in free]
+        loop_writes = all(b.in_loop(w) for w in writes)
+        key = "RocksStore::%s" % m
+        if bad and not loop_writes:
+            ctx.violation("durable", key + ":write-before-ok", "RocksStore::%s can return Ok without having written: a path from entry to a successful return avoids every database write (an early `return Ok(())` / skipped write) — what was acknowledged is not what a restart reads back" % m, site=b.term(bad[0]).get("sp") or b.js["span"])
+        else:
+            ctx.ok("durable", key + ":write-before-ok", "every successful return follows a database write" + (" (writes are per input entry)" if loop_writes else ""))
+    ctx.floor("durable", "durable writer methods of RocksStore examined", n, 4)
+
+
 def run(ctx):
+    ctx.guard("durable", lambda: run_unconditional(ctx))
     F = ctx.facts("persistent")
     cg = ctx.cg("persistent")
     opens = [PS + "RocksStore::open", PS + "RocksStore::open_with_shared_state"]
